@@ -147,7 +147,7 @@ def universe(table_names, rng=None, extra=0):
 
 # ------------------------------------------------------------------ translator: gen/Classes.v
 NAMED = ["Obj", "Never", "Bool", "Nat", "Int", "Ratio", "Float", "Complex", "Str", "NoneType", "Type", "ClassType",
-         "TraitType", "GenericList", "List", "Or"]
+         "TraitType", "GenericList", "List", "Or", "Named"]
 
 
 def parse_table(raw):
